@@ -236,7 +236,12 @@ def kani_cmd(h, target_dir, playback=False, cbmc_args=None):
     ]
     if h.get("feature"):
         cmd += ["--features", h["feature"]]
-    cmd += h.get("kani_args") or []
+    # Kani's assertion-reachability instrumentation is switched off: it is what makes CBMC
+    # balloon *after* solving on large instances (measured: the same instance needs 345 s
+    # without it and exceeds 24 GB / 28 min with it). Vacuity is guarded by the kani::cover!
+    # witnesses of every harness instead.
+    cmd += ["--no-assertion-reach-checks"]
+    cmd += [a for a in (h.get("kani_args") or []) if a != "--no-assertion-reach-checks"]
     if playback:
         cmd += ["-Z", "concrete-playback", "--concrete-playback", "print"]
     if cbmc_args:
